@@ -55,7 +55,14 @@ impl Prop for C09 {
             if !tables {
                 k = k.no_tables();
             }
-            let html = gen_doc(r, k).0;
+            let mut html = gen_doc(r, k).0;
+            // a table with a spacer row (every cell empty) between text rows, followed by annotated text: whatever the row
+            // pushed must be popped although the row renders nothing (added after the seeded change
+            // C09-empty-row-early-return-skips-unwind)
+            if tables && r.p(35) {
+                let spacer = *r.pick(&[&"<tr><td></td><td></td></tr>", &"<tr><td> </td><td>\n</td></tr>", &"<tr></tr>", &"<tr><td></td></tr>"]);
+                html.push_str(&format!("<table><tr><td>qra</td><td>qrb</td></tr>{spacer}<tr><td>qrc</td><td><em>qrd</em></td></tr></table><p>qre <em>qrf</em></p>"));
+            }
             for _ in 0..(if tier == Tier::Quick { 2 } else { 5 }) {
                 let mut cfg = Cfg::rich();
                 cfg.raw = tables && r.p(70);
@@ -63,7 +70,7 @@ impl Prop for C09 {
                 cfg.pad = r.p(10);
                 cfg.nostrike = r.p(30);
                 if r.p(30) {
-                    cfg.user_css = Some("em{color:#010203} li{color:#040506} td{background-color:#070809} table{color:#0a0b0c} h2{color:#0d0e0f}".into());
+                    cfg.user_css = Some("em{color:#010203} li{color:#040506} td{background-color:#070809} table{color:#0a0b0c} h2{color:#0d0e0f} tr{background-color:#101112}".into());
                 }
                 let w = if r.p(40) { 1 + r.u(16) } else { 1 + r.u(100) };
                 v.push(case(html.clone(), cfg, w, if tables { "tables" } else { "blocks" }));
@@ -90,7 +97,111 @@ impl Prop for C09 {
         }
         let dom = domwalk::tree(&c.html);
         if !sequence_ok(&dom, c.cfg.raw) {
-            // side-by-side tables reorder text: only check that every tag is a well-formed list (no leak check possible per token)
+            // side-by-side tables reorder text, so positions cannot be aligned; the generator's tokens are unique words, so
+            // every word that occurs exactly once in the document and exactly once (unbroken) in the output is checked
+            // against the annotations of its enclosing elements
+            let f = flat_of(&dom);
+            let css = c.cfg.user_css.is_some();
+            let mut doc_words: Vec<(String, Vec<usize>)> = Vec::new();
+            let mut cur: (String, Vec<usize>) = (String::new(), Vec::new());
+            // `all` = every token character of the document in flow order, words separated by '\u{1}': an output word that is
+            // a piece of a longer run (hard-wrapped, or two elements' texts running together) occurs in it more than once
+            // or inside a longer run, and is skipped
+            let mut all = String::from("\u{1}");
+            for (ch, e) in f.flow.iter() {
+                if super::c03::is_tok(*ch) {
+                    if cur.1.last().map(|l| l != e).unwrap_or(false) {
+                        doc_words.push(std::mem::take(&mut cur));
+                    }
+                    cur.0.push(*ch);
+                    cur.1.push(*e);
+                    all.push(*ch);
+                } else {
+                    if !cur.0.is_empty() {
+                        doc_words.push(std::mem::take(&mut cur));
+                    }
+                    if !all.ends_with('\u{1}') {
+                        all.push('\u{1}');
+                    }
+                }
+            }
+            all.push('\u{1}');
+            if !cur.0.is_empty() {
+                doc_words.push(cur);
+            }
+            let mut out_words: Vec<(String, Vec<String>)> = Vec::new();
+            for l in ls {
+                let mut w: (String, Vec<String>) = (String::new(), Vec::new());
+                for e in l.iter() {
+                    match e {
+                        El::Ch(ch, t) if super::c03::is_tok(*ch) => {
+                            w.0.push(*ch);
+                            w.1.push(t.clone());
+                        }
+                        El::Frag(_) => {}
+                        _ => {
+                            if !w.0.is_empty() {
+                                out_words.push(std::mem::take(&mut w));
+                            }
+                        }
+                    }
+                }
+                if !w.0.is_empty() {
+                    out_words.push(w);
+                }
+            }
+            if std::env::var("H2T_DEBUG").is_ok() {
+                eprintln!("doc_words={:?}\nout_words={:?}", doc_words, out_words.iter().map(|x| &x.0).collect::<Vec<_>>());
+            }
+            for (word, tags) in &out_words {
+                if word.chars().count() < 3 {
+                    continue;
+                }
+                let d: Vec<&(String, Vec<usize>)> = doc_words.iter().filter(|x| &x.0 == word).collect();
+                if d.len() != 1 || out_words.iter().filter(|x| &x.0 == word).count() != 1 {
+                    continue;
+                }
+                // the word stands alone in the document (delimited on both sides) and occurs nowhere else, not even inside
+                // a longer run
+                if all.matches(word.as_str()).count() != 1 || !all.contains(&format!("\u{1}{word}\u{1}")) {
+                    continue;
+                }
+                for (i, e) in d[0].1.iter().enumerate() {
+                    if *e == usize::MAX {
+                        continue;
+                    }
+                    let mut want: Vec<String> = Vec::new();
+                    let mut in_pre = false;
+                    for x in f.chain(*e) {
+                        let n = f.elems[x].node;
+                        if css {
+                            match n.name() {
+                                "em" => want.push("F1.2.3".into()),
+                                "li" => want.push("F4.5.6".into()),
+                                "td" => want.push("B7.8.9".into()),
+                                "table" => want.push("F10.11.12".into()),
+                                "tr" => want.push("B16.17.18".into()),
+                                "h2" => want.push("F13.14.15".into()),
+                                _ => {}
+                            }
+                        }
+                        if let Some(a) = ann_of(n) {
+                            want.push(a);
+                        }
+                        if n.is("pre") {
+                            in_pre = true;
+                        }
+                    }
+                    let mut got_tags: Vec<String> = tags[i].split(';').filter(|x| !x.is_empty()).map(|x| x.to_string()).collect();
+                    if in_pre && matches!(got_tags.last().map(|s| s.as_str()), Some("P") | Some("Q")) {
+                        got_tags.pop();
+                    }
+                    if got_tags != want {
+                        out.push(viol(format!("word {:?} (side-by-side table document), character #{i}: annotations {:?}, enclosing elements give {:?}", word, tags[i], want)));
+                        return out;
+                    }
+                }
+            }
             return out;
         }
         let f = flat_of(&dom);
@@ -119,6 +230,7 @@ impl Prop for C09 {
                             "li" => want.push("F4.5.6".into()),
                             "td" => want.push("B7.8.9".into()),
                             "table" => want.push("F10.11.12".into()),
+                            "tr" => want.push("B16.17.18".into()),
                             "h2" => want.push("F13.14.15".into()),
                             _ => {}
                         }
@@ -151,7 +263,9 @@ impl Prop for C09 {
         }
         // non-token characters (prefixes, borders, padding) never carry inline annotations of a finished element:
         // a line that consists only of a prefix/border has no E/S/K/C/L/I tag
-        for l in ls {
+        // (only when the document's own text consists of token characters and whitespace: otherwise a '<' or '*' may be text)
+        let pure = f.flow.iter().all(|(ch, _)| super::c03::is_tok(*ch) || ch.is_whitespace());
+        for l in ls.iter().filter(|_| pure) {
             let has_tok = l.iter().any(|e| matches!(e, El::Ch(ch, _) if super::c03::is_tok(*ch)));
             if !has_tok {
                 if let Some(El::Ch(ch, t)) = l.iter().find(|e| matches!(e, El::Ch(ch, t) if !ch.is_whitespace() && *ch != '\u{336}' && t.split(';').any(|x| matches!(x.chars().next(), Some('E' | 'S' | 'K' | 'C' | 'L' | 'I'))) && !"[]*`^{}0123456789:/".contains(*ch))) {
